@@ -9,6 +9,7 @@ Definition abs_out (ph : phase) : option outcome :=
   | Returned RNil => Some ONil
   | Returned RTimeout => Some OTimeout
   | Returned RSendErr => Some OErr
+  | Returned RBusy => Some OErr
   end.
 
 Definition abs_call (pg : ping) : call := mkCall (p_id pg) (p_recv pg) (abs_out (p_phase pg)).
@@ -19,7 +20,9 @@ Definition absst (s : state) : sstate := map abs_ping (pings s).
    frames without a notification and the compressed failed calls are invisible to the reference *)
 Definition absev (s : state) (e : event) : sevent :=
   match e with
-  | Begin p => SBegin p (next s)
+  | Begin p =>
+      if table_full (tbl s) then SRefuse p (next s)
+      else match alloc (tbl s) (next s) with Some i => SBegin p i | None => SOther end
   | Sent p true => SOther
   | Sent p false => SFail p
   | BulkFail _ => SOther
